@@ -27,6 +27,7 @@ func init() {
 func runC12(p *core.Program, r *core.Report) {
 	c := rc{p, r}
 	noAnswerBeforeTheScan(c, "gogu.Map", "gogu.ForEach", "gogu.ForEachRight", "gogu.Reduce", "gogu.Reverse", "gogu.Chunk", "gogu.Partition", "gogu.Filter", "gogu.Reject", "gogu.DropWhile", "gogu.DropRightWhile", "gogu.mapByIndex", "gogu.Zip", "gogu.Unzip", "gogu.Merge", "gogu.Shuffle")
+	resultUntouchedAfterTheScan(c, "gogu.Map", "gogu.ForEach", "gogu.ForEachRight", "gogu.Reduce", "gogu.Reverse", "gogu.Chunk", "gogu.Partition", "gogu.Filter", "gogu.Reject", "gogu.DropWhile", "gogu.DropRightWhile", "gogu.mapByIndex", "gogu.Zip", "gogu.Unzip", "gogu.Merge", "gogu.Shuffle")
 	hygiene(c, "slice.go", "filter.go", "shuffle.go", "string.go")
 
 	// ---------------- visit once, in order
